@@ -22,6 +22,10 @@ thread_local! {
     static DENY_ALLOC: std::cell::Cell<bool> = const { std::cell::Cell::new(false) };
 }
 pub static ALLOC_FAULTS: std::sync::atomic::AtomicBool = std::sync::atomic::AtomicBool::new(false);
+/// Stack size of the simulated caller threads in KiB; 0 = the platform default (2 MiB).
+pub static SMALL_STACK_KB: std::sync::atomic::AtomicUsize = std::sync::atomic::AtomicUsize::new(0);
+/// What a "small stack" run uses (a pool worker, an embedded RTOS task, a green thread): see DESIGN for how it was chosen.
+pub const SMALL_STACK_DEFAULT_KB: usize = 32;
 
 unsafe impl std::alloc::GlobalAlloc for SimAlloc {
     unsafe fn alloc(&self, layout: std::alloc::Layout) -> *mut u8 {
@@ -146,10 +150,11 @@ pub enum Op {
 pub const BREAK_POOL: [(i32, i32); 8] = [(-5, 9), (-1, 1), (-20, 20), (-50, 50), (-100, 100), (-300, 300), (-320, 5), (-5, 308)];
 
 /// valid custom NaN strings for the parser, and the texts tried against them
-pub const PNAN_POOL: [&[u8]; 8] = [b"NaN", b"nan", b"nil", b"null", b"NAN", b"nAn", b"Nanana", b"n"];
-pub const PNAN_TEXTS: [&[u8]; 16] = [
+pub const PNAN_POOL: [&[u8]; 10] =
+    [b"NaN", b"nan", b"nil", b"null", b"NAN", b"nAn", b"Nanana", b"n", b"NotANumber", b"nanQuietWithoutAnyPayloadWhatsoever"];
+pub const PNAN_TEXTS: [&[u8]; 22] = [
     b"NaN", b"nan", b"nil", b"NIL", b"null", b"Null", b"nAn", b"Nanana", b"nanana", b"n", b"N", b"-nil", b"+null", b"ni", b"nulll",
-    b"nanan",
+    b"nanan", b"NotANumber", b"notanumber", b"-NOTANUMBER", b"NotANumbe", b"nanQuietWithoutAnyPayloadWhatsoever", b"NANQUIETWITHOUTANYPAYLOADWHATSOEVEr",
 ];
 
 /// valid (inf_string, infinity_string) pairs for the parser (short no longer than long), and texts
@@ -946,6 +951,79 @@ fn guarded<R>(f: impl FnOnce() -> R) -> Result<R, String> {
     })
 }
 
+/// The facade sizes its own buffer at the documented bound, so a panic there on a valid call is both
+/// "facade differs from core" (C17) and "a buffer of the documented size did not suffice" (C09).
+fn facade_write_panicked(out: &mut OpResult, msg: &str) {
+    out.fail("C17", msg.to_string());
+    out.fail("C09", format!("{} (the facade allocates the documented buffer size itself)", msg));
+}
+
+/// A written decimal float as (significant digits d1..dn with d1, dn non-zero, exponent p) meaning d1.d2..dn x 10^p.
+fn decimal_sig(text: &[u8]) -> Option<(Vec<u8>, i64)> {
+    let t = match text.first() {
+        Some(b'-') | Some(b'+') => &text[1..],
+        _ => text,
+    };
+    let (mant, exp) = match t.iter().position(|&c| c == b'e' || c == b'E') {
+        Some(i) => (&t[..i], std::str::from_utf8(&t[i + 1..]).ok()?.parse::<i64>().ok()?),
+        None => (t, 0),
+    };
+    let (int, frac) = match mant.iter().position(|&c| c == b'.') {
+        Some(i) => (&mant[..i], &mant[i + 1..]),
+        None => (mant, &mant[mant.len()..]),
+    };
+    let mut all: Vec<u8> = Vec::new();
+    all.extend_from_slice(int);
+    all.extend_from_slice(frac);
+    if all.is_empty() || !all.iter().all(|c| c.is_ascii_digit()) {
+        return None;
+    }
+    let j = all.iter().position(|&c| c != b'0')?;
+    let p = int.len() as i64 + exp - 1 - j as i64;
+    let mut d = all[j..].to_vec();
+    while d.last() == Some(&b'0') {
+        d.pop();
+    }
+    Some((d, p))
+}
+
+/// Is the decimal d1.d2..dn x 10^p exactly the midpoint between the float `bits` and one of its neighbours
+/// (an endpoint of its rounding interval)?
+fn on_interval_endpoint(ty: FloatTy, bits: u64, digits: &[u8], p: i64) -> bool {
+    let (m, e) = ty.decompose(ty.abs(bits));
+    let m = m as u128;
+    let lower_is_half_gap = m == (1u128 << ty.mant_bits()) && ((ty.abs(bits) >> ty.mant_bits()) > 1);
+    let mut mids = vec![dyadic_to_decimal(2 * m + 1, e - 1)];
+    mids.push(if lower_is_half_gap {
+        dyadic_to_decimal(4 * m - 1, e - 2)
+    } else {
+        dyadic_to_decimal(2 * m - 1, e - 1)
+    });
+    mids.iter().any(|(d, k)| {
+        let len = d.len() as i64;
+        let stripped = d.trim_end_matches('0');
+        stripped.as_bytes() == digits && *k as i64 + len - 1 == p
+    })
+}
+
+/// Two different n-digit candidates, one unit in the last place apart, with the float's exact value halfway
+/// between them (its exact expansion is the lower candidate followed by a single 5): both are "closest".
+fn equidistant(ty: FloatTy, bits: u64, a: &[u8], ap: i64, b: &[u8], bp: i64) -> bool {
+    if ap != bp || a.len() != b.len() {
+        return false;
+    }
+    let lower = if a < b {
+        a
+    } else {
+        b
+    };
+    let (m, e) = ty.decompose(ty.abs(bits));
+    let (d, k) = dyadic_to_decimal(m as u128, e);
+    let len = d.len() as i64;
+    let exact = d.trim_end_matches('0').as_bytes();
+    k as i64 + len - 1 == ap && exact.len() == lower.len() + 1 && &exact[..lower.len()] == lower && exact[lower.len()] == b'5'
+}
+
 fn is_ascii(b: &[u8]) -> bool {
     b.iter().all(|&c| c < 0x80)
 }
@@ -1128,7 +1206,7 @@ fn exec_wint<T: SimInt, const F: u128>(
                     ),
                     Err(p) => {
                         out.caught_panic = true;
-                        out.fail("C17", format!("lexical::to_string panicked: {}", p))
+                        facade_write_panicked(out, &format!("lexical::to_string panicked: {}", p))
                     },
                 }
             }
@@ -1618,6 +1696,33 @@ fn exec_wfloat<T: SimFloat>(ty: FloatTy, bits: u64, short: Option<usize>, arena:
             if nd > ty.max_sig_digits() {
                 out.fail("C02", format!("output \"{}\" has {} significant digits", text, nd));
             }
+            // shortest, and closest among shortest (non-compact builds): the digit string and decimal
+            // exponent must be those of Rust's own shortest round-tripping form
+            if !is_compact() && ty.abs(bits) != 0 && ty.std_parse(&text) == Some(bits) {
+                let std_s = ty.std_shortest_sci(bits);
+                match (decimal_sig(&got), decimal_sig(std_s.as_bytes())) {
+                    (Some((ld, lp)), Some((sd, sp))) => {
+                        if ld.len() > sd.len() {
+                            let tag = if on_interval_endpoint(ty, bits, &sd, sp) {
+                                "shorter-decimal-on-interval-endpoint"
+                            } else {
+                                ""
+                            };
+                            out.fail_tagged(
+                                "C02",
+                                tag,
+                                format!("output \"{}\" has {} significant digits; \"{}\" round-trips with {}", text, ld.len(), std_s, sd.len()),
+                            );
+                        } else if ld.len() == sd.len() && (ld != sd || lp != sp) && !equidistant(ty, bits, &ld, lp, &sd, sp) {
+                            out.fail(
+                                "C02",
+                                format!("output \"{}\" is not the closest of the shortest candidates: \"{}\" is", text, std_s),
+                            );
+                        }
+                    },
+                    _ => out.fail("HARNESS", format!("cannot read the digits of \"{}\" / \"{}\"", text, std_s)),
+                }
+            }
         }
     }
     if short.is_none() {
@@ -1636,7 +1741,7 @@ fn exec_wfloat<T: SimFloat>(ty: FloatTy, bits: u64, short: Option<usize>, arena:
             ),
             Err(m) => {
                 out.caught_panic = true;
-                out.fail("C17", format!("lexical::to_string panicked: {}", m))
+                facade_write_panicked(out, &format!("lexical::to_string panicked: {}", m))
             },
         }
     }
@@ -1748,7 +1853,7 @@ fn exec_wfloat_r<T: SimFloat, const F: u128>(ty: FloatTy, radix: u8, bits: u64, 
             "C17",
             format!("lexical::to_string_with_options returned \"{}\" but lexical_core produced \"{}\"", show_text(s.as_bytes()), text),
         ),
-        Err(m) => out.fail("C17", format!("lexical::to_string_with_options panicked: {}", m)),
+        Err(m) => facade_write_panicked(out, &format!("lexical::to_string_with_options panicked: {}", m)),
     }
 }
 
@@ -1831,6 +1936,10 @@ fn exec_special_off<T: SimFloat>(ty: FloatTy, which: u8, arena: &mut Arena, out:
             out.fail("C15", format!("writing a special whose string is disabled emitted {} bytes instead of panicking", n));
         },
     }
+    // the facade makes the same documented panic while it holds whatever it holds; later calls must not care
+    if let Ok(st) = guarded(|| lexical::to_string_with_options::<T, STD>(v, &opts)) {
+        out.fail("C17", format!("lexical::to_string_with_options returned \"{}\" where lexical_core panics (special string disabled)", show_text(st.as_bytes())));
+    }
 }
 
 fn exec_wfloat_breaks<T: SimFloat>(ty: FloatTy, bits: u64, idx: u8, arena: &mut Arena, out: &mut OpResult) {
@@ -1903,7 +2012,7 @@ fn exec_wfloat_breaks<T: SimFloat>(ty: FloatTy, bits: u64, idx: u8, arena: &mut 
         Ok(st) => out.fail("C17", format!("lexical::to_string_with_options returned \"{}\", core wrote \"{}\"", show_text(st.as_bytes()), text)),
         Err(m) => {
             out.caught_panic = true;
-            out.fail("C17", format!("lexical::to_string_with_options panicked: {}", m))
+            facade_write_panicked(out, &format!("lexical::to_string_with_options panicked: {}", m))
         },
     }
 }
@@ -2074,7 +2183,7 @@ fn exec_wfloat_digits<T: SimFloat>(ty: FloatTy, bits: u64, max: u8, arena: &mut 
         ),
         Err(m) => {
             out.caught_panic = true;
-            out.fail("C17", format!("lexical::to_string_with_options panicked: {}", m))
+            facade_write_panicked(out, &format!("lexical::to_string_with_options panicked: {}", m))
         },
     }
 }
@@ -2207,7 +2316,7 @@ fn exec_nan_custom<T: SimFloat>(ty: FloatTy, idx: u8, arena: &mut Arena, out: &m
                 match guarded(|| lexical::to_string_with_options::<T, STD>(v, &opts)) {
                     Ok(st) if st.as_bytes() == &got[..] => {},
                     Ok(st) => out.fail("C17", format!("lexical::to_string_with_options returned \"{}\", core wrote \"{}\"", show_text(st.as_bytes()), show_text(&got))),
-                    Err(m) => out.fail("C17", format!("lexical::to_string_with_options panicked: {}", m)),
+                    Err(m) => facade_write_panicked(out, &format!("lexical::to_string_with_options panicked: {}", m)),
                 }
             }
         },
